@@ -21,6 +21,11 @@ func init() {
 // espace special CSS char
 func escape(s string) string { return specialCharReplacer.Replace(s) }
 
+var stringReplacer = strings.NewReplacer(`\`, `\\`, `"`, `\"`, "\n", `\a `, "\r", `\d `, "\f", `\c `)
+
+// escape the content of a double quoted CSS string
+func escapeString(s string) string { return stringReplacer.Replace(s) }
+
 func (c tagSelector) String() string {
 	if c.tag != 0 {
 		return c.tag.String()
@@ -41,7 +46,7 @@ func (c attrSelector) String() string {
 	if c.operation == "#=" {
 		val = c.regexp.String()
 	} else if c.operation != "" {
-		val = fmt.Sprintf(`"%s"`, val)
+		val = fmt.Sprintf(`"%s"`, escapeString(val))
 	}
 
 	ignoreCase := ""
@@ -61,7 +66,7 @@ func (c containsPseudoClassSelector) String() string {
 	if c.own {
 		s += "Own"
 	}
-	return fmt.Sprintf(`:%s("%s")`, s, c.value)
+	return fmt.Sprintf(`:%s("%s")`, s, escapeString(c.value))
 }
 
 func (c regexpPseudoClassSelector) String() string {
